@@ -49,7 +49,7 @@ MANIFEST = {
             "functions and the normalised bodies of the class methods the payload model follows (Gen/Software.lean, "
             "Gen/SoftwareRecv.lean, obligations C13_gen_*); differential rigs: R-svc on real Computer, Server, Router, Switch and "
             "Firewall nodes over every shipped class; R-recv on two real hosts joined by a real link (real receive of the six "
-            "modelled classes, real NIC/ARP/HostNode/SessionManager/SoftwareManager transport); R-conn on real instances.",
+            "modelled classes, real NIC/ARP/HostNode/SessionManager/SoftwareManager transport); R-conn and R-bot on real instances.",
     "note": "C13-specific: payload processing is modelled for DNS, NTP and web client/server and the three attack loops — FTP client / "
             "server (STOR / RETR, files), database service / client, terminal (C16), the C2 beacon / server state machine are followed "
             "only as far as routing and the running-guard; the web server's database access enters as a verdict (is a database client "
